@@ -299,6 +299,18 @@ def build(tier, ctx):
         3 if tier == "quick" else 4, 10)]
     defs += [("FS", d) for d in fragment.staged_merge_family()]
     defs += [("FD", d) for d in fragment.kill_in_loop_family()]
+    # wave 15: the small definitions again under event type names a model
+    # file has to carry through unchanged: outer blanks and tabs, quotes and
+    # backslashes, non-ASCII, names equal up to case or a trailing blank,
+    # JSON literals and the keys of the model file itself
+    odd = ({"A": "A ", "B": " B", "C": "C\t", "D": 'D "q" \\', "E": "\u00c9v",
+            "F": "e\u0301", "G": "job_name", "H": "events"},
+           {"A": "a", "B": "A", "C": "a ", "D": "true", "E": "null",
+            "F": "event_type", "G": "0", "H": ""})
+    for nm, d in pvcommon.scope_defs(ctx["repo"], 3 if tier == "quick" else 4,
+                                     with_corpus=False):
+        for mp in odd:
+            defs.append((nm, dsl.map_names(d, mp)))
     # add the design's witness for "no new evidence for some events"
     tasks = [{"kind": "H", "tier": tier, "defs": [(nm, dsl.to_list(d))]}
              for nm, d in defs]
